@@ -23,29 +23,30 @@ PROP = dict(
         "MM/Gen/LockC11f.lean": {"cmd": ["go", "run", "{VERIF}/tools/lockshape.go", "LockC11f", "{REPO}/internal/routing/forward.go", "ForwardTable.AddRoute", "mu", "routes"]},
         "MM/Gen/LockC11a.lean": {"cmd": ["go", "run", "{VERIF}/tools/lockshape.go", "LockC11a", "{REPO}/internal/routing/agent.go", "AgentTable.AddRoute", "mu", "routes"]},
     },
-    lean_modules=["MM.Props.C14", "MM.Props.C11Lock"],
+    lean_modules=["MM.Props.C14", "MM.Props.C11Lock", "MM.Props.C12Conv"],
     theorems=[
         "MM.C11.Lock.sequence_increment_atomic",
         "MM.C14.C14_partial",
         "MM.C14.C14_renews",
+        "MM.C14.C14_reaches_all",
         "MM.C14.C14_refuted",
         "MM.C14.C14_refuted_block",
     ],
     spec=True,
-    rule="cases = random topology (chain/ring/star/clique/tree+extra edges, 2..5 agents, rarely 9..20; thorough up to 7) x random local routes (CIDR v4/v6, domain exact/wildcard, forward; base metrics 0..10 and 65534) x op schedule written while driving the real mesh: bring links up (with/without table replay, before or between deliveries), deliver/duplicate/lose a chosen queued frame, announce, withdraw, expire a cached key, replay a table, stale cleanup; every case drains to quiescence and dumps the whole state. After every op both sides print the acting agent's counter, seen cache, all four tables (metric, sequence, path, last-update tick) and the touched queues (origin, sequence, path, seen-by, routes+metrics). Non-trivial = an op that handled a frame, replayed a table or changed a cache/table. Engine c14 interleaves link bring-up with deliveries and replays tables often. spec: when an agent handles a copy of an announcement issued by its origin (seen-by starts with the origin) it must not answer `seen` unless it handled a genuine copy of that key before (tag genuine-announcement-ignored-replay-key-collision), and after `new` no advertised route may keep a stored sequence number above the announcement's that the origin never issued (tag refresh-blocked-by-replayed-sequence)",
+    rule="cases = random topology (chain/ring/star/clique/tree+extra edges, 2..5 agents, rarely 9..20; thorough up to 7) x random local routes (CIDR v4/v6, domain exact/wildcard, forward; base metrics 0..10 and 65534) x op schedule written while driving the real mesh: bring links up (with/without table replay, before or between deliveries), deliver/duplicate/lose a chosen queued frame, announce, withdraw, expire a cached key, replay a table, stale cleanup, lose a connection (disconnect); rare streams: an origin with 256..315 routes (announcements and replays span several advertisements), a reroute case (link behind the next hop disappears while an equally long alternative exists), and a `race` stress op (one announcement handed to a fresh agent by k goroutines at once); every case drains to quiescence and dumps the whole state. After every op both sides print the acting agent's counter, seen cache, all four tables (metric, sequence, path, last-update tick) and the touched queues (origin, sequence, path, seen-by, routes+metrics). Non-trivial = an op that handled a frame, replayed a table or changed a cache/table. Engine c14 interleaves link bring-up with deliveries and replays tables often. spec: when an agent handles a copy of an announcement issued by its origin (seen-by starts with the origin) it must not answer `seen` unless it handled a genuine copy of that key before (tag genuine-announcement-ignored-replay-key-collision), and after `new` no advertised route may keep a stored sequence number above the announcement's that the origin never issued (tag refresh-blocked-by-replayed-sequence)",
     nontrivial=lambda op, out: out.startswith(("r=new", "r=seen", "r=drop", "r=ord:", "r=removed")),
     trusted_base=[
         'tools/lockshape.go (go/ast): lock-shape facts MM/Gen/LockC11*.lean on which the atomic-step ties (MM/Props/C11Lock.lean) are decided; goroutine scheduling itself is exercised only by the `race` stress op',
         'MM/Model/C11.lean models HandleRouteAdvertise / HandleRouteWithdraw / floodAdvertisementEncrypted / floodWithdrawal / floodFrame / AnnounceLocalRoutes / WithdrawLocalRoutes / SendFullTable / cleanupSeenCache (flood.go), Process*RouteAdvertise / AddLocal*Route / CleanupStale*Routes (manager.go) and the four AddRoute update rules; tied to the code by the differential run (N real Flooder+Manager pairs over a queueing PeerSender)',
         'harness/main/eng_c11.go delivers frames the way Agent.handleRouteAdvertise / handleRouteWithdraw do (DecodeRouteAdvertise / DecodeRouteWithdraw, then HandleRouteAdvertise / HandleRouteWithdraw with the decoded fields); Agent.handlePeerConnected -> SendFullTable is the `replay` op',
         'harness accessors (overlay, add-only): flood.C11ExpireSeen runs the production cleanupSeenCache on one aged entry; routing.C11Stamp rewrites LastUpdate of the entries touched by an op to a logical tick',
-        "lib/floodlib.py: the model takes SendFullTable's origin order from the implementation's answer and checks it is a permutation",
+        "lib/floodlib.py + follow mode: where Go map iteration decides (the origin order and x[0] path choice of SendFullTable, which routes share an advertisement when there are more than 255) the model takes the outcome from the implementation's answer and checks that it is an admissible one (hintOK / groupingOK)",
     ],
     assumptions=[
         'time is a logical clock (one tick per op); seen-cache expiry is an op that may remove any key at any moment (over-approximates the TTL)',
-        'u64 sequence numbers do not wrap; paths and seen-by lists have < 256 entries (one-byte count on the wire); < 256 routes per advertisement (C06)',
+        'u64 sequence numbers do not wrap; the one-byte path / seen-by counts never wrap (theorem C15_no_wrap, with fixes/C15-wire-count-replay.patch); advertisements are split into groups of at most 255 routes like splitRoutes does, its byte budget is never binding for the route encodings used (<= 24 bytes per route)',
         "per-key route lists have <= 12 entries (Go's sort.Slice is a stable insertion sort only up to 12 elements)",
-        'links are only added (stable topology); peer disconnect (route removal per next hop) is outside this model. ROUTE_WITHDRAW (WithdrawLocalRoutes / HandleRouteWithdraw / floodWithdrawal) IS modelled: it shares the seen cache, the loop test and floodFrame with advertisements',
+        'peer disconnect IS modelled (`disconnect`: queued frames lost, RemoveRoutesFromPeer at both ends, as Agent.handlePeerDisconnect does); the C12 path theorems assume a stable topology (no disconnect in the history) as the property does. ROUTE_WITHDRAW (WithdrawLocalRoutes / HandleRouteWithdraw / floodWithdrawal) IS modelled: it shares the seen cache, the loop test and floodFrame with advertisements',
         'plain (non-sealed-box) configuration: paths travel as plaintext EncryptedData, display names ignored',
     ],
     chunk=6000,
